@@ -1,6 +1,7 @@
 import Originium.Model.DiskProgMain
 import Originium.Model.Wal
 import Originium.Model.LevelTie
+import Originium.Model.WalTie
 /-! # C14 — losing unsynced file tails in a crash loses no acknowledged commit
 
 `CutOf d d'`: every wal keeps at least its synced records and loses any suffix of the rest (at the
@@ -129,6 +130,18 @@ theorem C14_code_publish_by_rename (cf wf sf clf rf : Bool) :
 example : GenLevel.writeTable false false false false false [] =
     (true, ["create tmp", "write tmp", "fsync tmp", "close tmp", "rename tmp -> name"]) := by decide
 
+/-- the code of `WAL.Write` (translated from /repo on every run): a commit is acknowledged (nil) only after the one write of its
+    batch was followed by an fsync of the wal; if the fsync fails or is not reached, an error is returned — the `ack` rule
+    of the trace model (`C14_ack_after_sync`) in the code, for batches of every size -/
+theorem C14_code_ack_after_sync {ε β : Type} (enc : ε → List β) (len8 : Nat → List β) (nilFD sf : Bool) (mf : ε → Bool) (wf syf : Bool)
+    (entries : List ε) (h : (GenWal.write enc len8 nilFD sf mf wf syf entries []).1 = true) :
+    (GenWal.write enc len8 nilFD sf mf wf syf entries []).2 =
+        [("w.mu.Lock", []), ("seek to the end", []), ("write", WalTie.batchBytes enc len8 entries), ("fsync", [])] ∧ syf = false := by
+  refine ⟨WalTie.write_ack enc len8 nilFD sf mf wf syf entries h, ?_⟩
+  rw [WalTie.write_table] at h
+  generalize entries.any mf = a at h
+  cases nilFD <;> cases sf <;> cases a <;> cases wf <;> cases syf <;> simp_all
+
 #print axioms C14_lossy_crash
 #print axioms C14_ack_after_sync
 #print axioms C14_program_lossy
@@ -137,4 +150,5 @@ example : GenLevel.writeTable false false false false false [] =
 #print axioms C14_remove_after_replacement
 #print axioms C14_torn_wal_is_prefix
 #print axioms C14_code_publish_by_rename
+#print axioms C14_code_ack_after_sync
 end Props
